@@ -57,9 +57,21 @@ BOUNDARY = [
     [[0., 1., 1., 0., 1., 2.], [1., 1., 0., 1., 1., 0.5]],    # B5 != T5
     [[0., 1., 0., 0., 0., .5], [0., 0., 0., 3., 3., 1.]],     # the C07 probe scheme
 ]
-SCHEMES_QUICK = PRESETS[:4] + [GENERIC_A, GENERIC_B, GENERIC_C] + [scale(unifying(), 2.), scale(pseudo(), .25)]
+# near ties (exact in double precision for the counts met here): scores that differ do so by a tiny RELATIVE amount, so
+# that a comparison made tolerant (isclose, round, epsilon) where the property needs an exact one changes the outcome.
+#   BIG_NEAR_TIE: integer penalties 2**20 and 2**20 + 1: distinct scores differ by >= 1 (absolute) but ~1e-6 (relative)
+#   NEAR_TIE_33:  a tie costs 1 + 2**-33 where an inversion costs 1: distinct scores may differ by ~1e-10 only
+#   OFFSET_NEAR_TIE: pairs unranked by an input ranking cost 2**20 whatever the candidate does with them: on sparse
+#                 datasets every candidate's score is one large constant plus the usual small score (relative
+#                 differences ~1e-6, absolute differences >= 1/2)
+BIG_NEAR_TIE = scale(pseudo(1. + 2. ** -20), 2. ** 20)
+NEAR_TIE_33 = pseudo(1. + 2. ** -33)
+OFFSET_NEAR_TIE = [[0., 1., 1., 0., 1., 2. ** 20], [1., 1., 0., 1., 1., 2. ** 20]]
+NEAR_TIES = [BIG_NEAR_TIE, NEAR_TIE_33, OFFSET_NEAR_TIE]
+SCHEMES_QUICK = PRESETS[:4] + [GENERIC_A, GENERIC_B, GENERIC_C] + [scale(unifying(), 2.), scale(pseudo(), .25), BIG_NEAR_TIE]
 SCHEMES_ALL = PRESETS + [GENERIC_A, GENERIC_B, GENERIC_C] + BOUNDARY + \
-    [scale(s, k) for s in PRESETS[:4] for k in (2., .25)] + [scale(unifying(), 1. / 8192), scale(pseudo(), 1. / 8192)]
+    [scale(s, k) for s in PRESETS[:4] for k in (2., .25)] + [scale(unifying(), 1. / 8192), scale(pseudo(), 1. / 8192)] + \
+    NEAR_TIES
 
 
 def grid_schemes(rng, count, values=(0., .5, 1., 2., 3.)):
